@@ -3,7 +3,7 @@ import os, json, re, shutil, hashlib
 import common
 from common import sg, new_report, add_violation, count
 
-JS_LINES = ['foo(1);', 'foo(foo(2));', 'let a = foo(b) + foo(3);', 'bar(4);', 'foo("é🦀", 5);', 'function f() { return foo(foo(foo(6))); }', '// foo(7)', 'foo(\n  8\n);', 'x = 9;']
+JS_LINES = ['foo(x)(y);', 'a.b.c(d, e);', 'g(-x, !y);', 'foo(1)(2)(3);', 'foo(1);', 'foo(foo(2));', 'let a = foo(b) + foo(3);', 'bar(4);', 'foo("é🦀", 5);', 'function f() { return foo(foo(foo(6))); }', '// foo(7)', 'foo(\n  8\n);', 'x = 9;']
 PY_LINES = ['foo(1)', 'y = foo(foo(2))', 'print(3)', 'def g():\n    return foo(4)']
 HTML = ['<div><script>foo(1); bar(foo(2))</script><p>foo</p></div>\n', '<p>text</p><style>a { color: red }</style>\n<script>let v = foo(3)</script>\n', '<p>no code 4</p>\n']
 RULE_POOL = [
@@ -15,18 +15,38 @@ RULE_POOL = [
     {'id': 'html-p', 'language': 'Html', 'rule': {'kind': 'element', 'regex': '^<p>'}, 'fix': '<span>replaced</span>'},
     {'id': 'css-decl', 'language': 'Css', 'rule': {'kind': 'declaration'}, 'fix': 'color: blue'},
     {'id': 'js-nofix', 'language': 'JavaScript', 'rule': {'pattern': 'bar($$$A)'}},
+    {'id': 'tsx-selfclose', 'language': 'Tsx', 'rule': {'pattern': '<$T/>'}, 'fix': '<$T></$T>'},
+    {'id': 'rs-some', 'language': 'Rust', 'rule': {'pattern': 'Some($A)'}, 'fix': '$A'},
 ]
+# (pattern, rewrite, language) for `sg run`
+RUN_POOL = [('foo($A)', 'bar($A)', 'js'), ('foo($A)', 'bar($A)', 'js'), ('<$T/>', '<$T></$T>', 'tsx'), ('Some($A)', '$A', 'rs'),
+            ('$A($B)', '$B', 'js'), ('foo($$$A)', '', 'js')]
+JS_KINDS = ['identifier', 'arguments', 'number', 'string', 'call_expression', 'expression_statement', 'binary_expression',
+            'member_expression', 'property_identifier', 'statement_block', 'return_statement', 'comment', 'unary_expression',
+            'lexical_declaration', 'variable_declarator', 'parenthesized_expression']
+TSX_LINES = ['const a = <><a/><b/><c/></>;', 'let v = <p><x/> <y/></p>;', 'foo(<z/>);', 'const n = 1;']
+RS_LINES = ['fn a() { let x = Some(Some(1)); }', 'fn b() -> Option<u8> { Some(2) }', 'fn c() { foo(Some(3), Some(Some(Some(4)))); }', '// Some(5)']
+
+
+def kind_rule(rng, i):
+    """a fixable rule on one JavaScript node kind: many of these on one file give adjacent, nested and equal ranges"""
+    return {'id': f'k{i}-{rng.choice("abxyz")}', 'language': 'JavaScript', 'rule': {'kind': rng.choice(JS_KINDS)},
+            'fix': rng.choice(['X', '', '(y)', 'q.r', '"s"', 'id', '/*c*/'])}
 
 
 def gen_tree(rng):
     files = {}
     for i in range(rng.randint(3, 9)):
-        kind = rng.choice(['js', 'js', 'js', 'py', 'html', 'txt', 'js'])
+        kind = rng.choice(['js', 'js', 'js', 'py', 'html', 'txt', 'js', 'tsx', 'rs'])
         d = rng.choice(['', 'src', 'src/x'])
         if kind == 'js':
             text = '\n'.join(rng.choice(JS_LINES) for _ in range(rng.randint(1, 6))) + rng.choice(['\n', ''])
         elif kind == 'py':
             text = '\n'.join(rng.choice(PY_LINES) for _ in range(rng.randint(1, 4))) + '\n'
+        elif kind == 'tsx':
+            text = '\n'.join(rng.choice(TSX_LINES) for _ in range(rng.randint(1, 4))) + rng.choice(['\n', ''])
+        elif kind == 'rs':
+            text = '\n'.join(rng.choice(RS_LINES) for _ in range(rng.randint(1, 4))) + '\n'
         elif kind == 'html':
             text = ''.join(rng.choice(HTML) for _ in range(rng.randint(1, 2)))
         else:
@@ -57,7 +77,7 @@ def splice(data, edits):
     return bytes(out)
 
 
-def one_invocation(rep, work, files_before, rules, mode, k, it):
+def one_invocation(rep, work, files_before, rules, mode, k, it, runspec=None):
     """files_before: {path: bytes}. returns files after"""
     tree = {p: v for p, v in files_before.items()}
     cfg = {'sgconfig.yml': b'ruleDirs: [rules]\n'}
@@ -71,13 +91,14 @@ def one_invocation(rep, work, files_before, rules, mode, k, it):
         ann_args = ['scan', '--json=stream', '-U']
         upd_args = ['scan', '-U']
     else:
-        ann_args = ['run', '-p', 'foo($A)', '-r', 'bar($A)', '-l', 'js', '--json=stream', '.']
-        upd_args = ['run', '-p', 'foo($A)', '-r', 'bar($A)', '-l', 'js', '-U', '.']
+        pat, rw, lang = runspec or RUN_POOL[0]
+        ann_args = ['run', '-p', pat, '-r', rw, '-l', lang, '--json=stream', '.']
+        upd_args = ['run', '-p', pat, '-r', rw, '-l', lang, '-U', '.']
     log = os.path.join(work, f'log{k}.jsonl')
     rc1, out1, err1 = sg(ann_args, cwd=a)
     rc2, out2, err2 = sg(upd_args, cwd=b, env={'AST_GREP_VERIF_LOG': log})
     rep['evaluations'] += 1
-    replay = {'monitor': 'py:c18', 'files': {p: v.decode('utf-8') for p, v in tree.items()}, 'rules': rules, 'mode': mode}
+    replay = {'monitor': 'py:c18', 'files': {p: v.decode('utf-8') for p, v in tree.items()}, 'rules': rules, 'mode': mode, 'runspec': runspec}
     what = f'{" ".join(upd_args)} (invocation {it})'
     writes = {}
     if os.path.exists(log):
@@ -116,6 +137,9 @@ def one_invocation(rep, work, files_before, rules, mode, k, it):
             else:
                 sig = f'C18/content/{mode}'
             add_violation(rep, sig, f'{what}: {p} is {after[p][:120]!r}, announced edits give {want[:120]!r} (written {writes.get(p, 0)}x)', replay)
+        srt = sorted(acc)
+        if any(srt[i][1] == srt[i + 1][0] for i in range(len(srt) - 1)):
+            count(rep, 'files_with_touching_edits')
         if len(acc) >= 2 or len(announced.get(p, [])) > len(acc) or multi_doc:
             rep['_nt'].add(hashlib.sha1(tree[p] + json.dumps([rules, mode]).encode()).hexdigest())
     m = re.search(r'Applied (\d+) changes', out2.decode('utf-8', 'replace'))
@@ -135,30 +159,43 @@ def one_invocation(rep, work, files_before, rules, mode, k, it):
     return after
 
 
-def run_project(rep, ctx, work, k, rng):
+def run_project(ctx, work, k):
+    import random
+    rng = random.Random(f'C18-{ctx.seed}-{k}')
+    rep = new_report(); rep['_nt'] = set()
     files = {p: v.encode('utf-8') for p, v in gen_tree(rng).items()}
-    rules = rng.sample(RULE_POOL, rng.randint(1, 6))
+    rules = rng.sample(RULE_POOL, rng.randint(1, 6)) + [kind_rule(rng, i) for i in range(rng.choice([0, 0, 1, 2, 3]))]
     mode = rng.choice(['scan', 'scan', 'run'])
+    runspec = rng.choice(RUN_POOL)
     cur = files
     for it in range(2 if not ctx.thorough else 3):
-        cur = one_invocation(rep, work, cur, rules, mode, k, it)
+        cur = one_invocation(rep, work, cur, rules, mode, k, it, runspec)
+    return rep
 
 
 def run(ctx):
-    rep = new_report(); rep['_nt'] = set()
+    import concurrent.futures as cf
+    rep = new_report(); nt = set()
     work = ctx.workdir()
-    n = 1500 if ctx.thorough else 60
-    for k in range(n):
-        run_project(rep, ctx, work, k, ctx.rng)
-    rep['distinct_nontrivial'] = len(rep.pop('_nt'))
-    rep['samples'].append({'rules': ['js-foo-bar', 'js-num', 'html-p'], 'file': 'foo(foo(2));\nlet a = foo(b) + foo(3);\n', 'commands': ['scan --json=stream -U (announcement)', 'scan -U (update)']})
+    n = 2400 if ctx.thorough else 240
+    with cf.ThreadPoolExecutor(max_workers=common.NCPU) as ex:
+        subs = list(ex.map(lambda k: run_project(ctx, work, k), range(n)))
+    for sub in subs:
+        nt |= sub.pop('_nt')
+        rep['evaluations'] += sub['evaluations']
+        for kk, v in sub['counters'].items():
+            count(rep, kk, v)
+        for v in sub['violations']:
+            add_violation(rep, v['signature'], v['what'], v['replay'])
+    rep['distinct_nontrivial'] = len(nt)
+    rep['samples'].append({'rules': ['js-foo-bar', 'js-num', 'html-p', 'k0-x (kind: arguments -> X)'], 'file': 'foo(foo(2));\nlet a = foo(b) + foo(3);\n', 'commands': ['scan --json=stream -U (announcement)', 'scan -U (update)']})
     ctx.cleanup()
     return rep
 
 
 def replay(ctx, r):
     rep = new_report(); rep['_nt'] = set()
-    one_invocation(rep, ctx.workdir(), {p: v.encode('utf-8') for p, v in r['files'].items()}, r['rules'], r['mode'], 0, 0)
+    one_invocation(rep, ctx.workdir(), {p: v.encode('utf-8') for p, v in r['files'].items()}, r['rules'], r['mode'], 0, 0, r.get('runspec'))
     rep.pop('_nt')
     ctx.cleanup()
     return rep
